@@ -689,7 +689,7 @@ func runConcurrent(c *scase) {
 		for i := range pl {
 			pl[i] = [2][]byte{g.Bytes(1 + g.Intn(3000)), g.Bytes(1 + g.Intn(3000))}
 		}
-		res := obfskit.RunPairs(c.Pairs, func(i int) ([]byte, []byte) { return pl[i][0], pl[i][1] }, dial, sf.WrapConn, 30*time.Second)
+		res := obfskit.RunPairs(c.Pairs, func(i int) ([]byte, []byte) { return pl[i][0], pl[i][1] }, dial, sf.WrapConn, 10*time.Second)
 		for i, x := range res {
 			r.Case(fmt.Sprintf("concurrent %d batch %d pair %d", c.TapeSeed, b, i), true)
 			r.Count("kind", "concurrent-real-real")
@@ -703,6 +703,9 @@ func runConcurrent(c *scase) {
 			}
 			c.violate(sig, "impl-oracle",
 				fmt.Sprintf("batch %d of %d simultaneous obfs2 client/server pairs in one process, pair %d: %s (the same pair run alone completes)", b, c.Pairs, i, x.Err))
+		}
+		if bad > 0 {
+			break // one failing batch is the finding; further batches would only repeat it (and may each run into the time limit)
 		}
 	}
 	r.Count("concurrent-outcome", fmt.Sprintf("failed-pairs=%d", bad))
